@@ -104,22 +104,32 @@ impl Ctx {
         let p = &sanitize(p);
         let q = format!("SELECT id FROM t WHERE {}", p.sql(&t.names));
         let tq = Instant::now();
-        let out = query_full(&live.db, &q, true, 10);
+        let mut out = query_full(&live.db, &q, true, 10);
         if std::env::var("C03_TIMING").is_ok() { eprintln!("query {:?} {}", tq.elapsed(), out.tok().chars().take(12).collect::<String>()); }
+        let mut retried = "";
+        if out == QOut::Hang {
+            // the machine is shared and heavily loaded: one retry on a fresh database with a generous deadline
+            // (a hang that does not reproduce is a scheduling question for C10 / C11, not a wrong filter)
+            *live = build(t, r); self.rebuilds += 1;
+            out = query_full(&live.db, &q, true, 60);
+            retried = " | retried-after-hang";
+        }
         let model_line = format!("where {} {} {}", p.rpn(), t.tok(), live.img);
         self.cases.push(&format!("{}|p{}", class, r.partitions().min(3)), &model_line, &ids_tok(&out),
-            &format!("{} | {} | {} | {} | {}", q, t.type_tag(), r.tag(), live.img_classes.join(","), out.detail()));
+            &format!("{} | {} | {} | {} | {}{}", q, t.type_tag(), r.tag(), live.img_classes.join(","), out.detail(), retried));
         let bad = matches!(out, QOut::Panic(_) | QOut::Hang) || matches!(&out, QOut::Err(k) if k == "canceled");
         if bad { *live = build(t, r); self.rebuilds += 1; }
     }
 }
 
-/// `-9223372036854775808` is not an integer literal for the SQL parser (it negates the positive literal, which is
+/// Constants without a literal syntax are never emitted.  `-9223372036854775808` is not an integer literal for the SQL parser (it negates the positive literal, which is
 /// not an i64): the model line would not denote what the SQL text says, so the generators never emit it.
 fn sanitize(e: &Ex) -> Ex {
     let b = |x: &Ex| Box::new(sanitize(x));
     match e {
         Ex::Lit(Cell::Int(i)) if *i == i64::MIN => Ex::Lit(Cell::Int(i64::MIN + 1)),
+        // inf / NaN have no literal syntax (`-inf` parses as the negation of a column called inf)
+        Ex::Lit(Cell::Float(b)) if !f64::from_bits(*b).is_finite() => Ex::Lit(Cell::f(if f64::from_bits(*b) < 0.0 { -1.7e308 } else { 1.7e308 })),
         Ex::Cmp(op, l, r) => Ex::Cmp(op, b(l), b(r)),
         Ex::And(l, r) => Ex::And(b(l), b(r)),
         Ex::Or(l, r) => Ex::Or(b(l), b(r)),
